@@ -1045,6 +1045,8 @@ class Walker(object):
         prog = self.prog
         res = f.get("resolved") if f else None
         trait = f.get("trait") if f else None
+        if res and trait and _prefer_default(res.get("path") or ""):
+            res = None      # use the trait's provided method (it only calls next(), which is modelled)
         if res and res.get("path") and res["kind"] in ("item", "closureonce", "fnptrshim", "reify"):
             rpath = res["path"]
             rargs = self._targs(frame, res["args"])
@@ -1073,11 +1075,16 @@ class Walker(object):
                                 break
                         if not ok:
                             continue
+                        if _prefer_default(item):
+                            continue
                         fn = prog.fns.get(item)
                         if fn is not None:
                             genv = dict(env)
                             # method-level generics follow the trait's own params in targs
                             return fn, self._bind_extra(fn, genv, targs), item
+            if self_ty is not None and self_ty[0] == "adt" and self_ty[1] == "core::iter::adapters::zip::Zip" \
+                    and path.endswith("::Iterator::next"):
+                return None, {}, _ZIP_ITER + "next"     # modelled (builtins), its std body is a specialised fast path
             fn = prog.fns.get(path)
             if fn is not None:
                 return fn, self._bind(fn, targs), path
@@ -1639,6 +1646,15 @@ def _ite_values(t):
             return None
         return a | b
     return None
+
+
+_ZIP_ITER = "<core::iter::adapters::zip::Zip<A, B> as core::iter::traits::iterator::Iterator>::"
+
+
+def _prefer_default(path):
+    """overrides whose std implementation is a specialised fast path (unsafe index arithmetic over
+    TrustedRandomAccess): the provided trait method is semantically the same and interpretable"""
+    return path.startswith(_ZIP_ITER) and not path.endswith("::next")
 
 
 class EnumTerm(object):
